@@ -1,5 +1,98 @@
 /-
-C06 — property theorems (stub: not built yet).
+C06 — RE2-mode adapter agrees with Go's regexp package (iteration part).
+
+What is proved here is the part of C06 that is about the adapter's own code: its find-all
+iteration (`forEachStringMatch`, and `FindAllStringIndex`/`FindAllIndex` through regexp2's
+`findAllRunesIndex`) against the loop of the standard library (`(*Regexp).allMatches`), including
+the rule for empty matches next to a previous match, the limit `n` and nil-ness; and the `-1` pairs
+of the submatch index conversion. Both loops are modelled in `RegexVerif.Model.Scan` over the same
+abstract single-position matcher. That the two ENGINES agree on single matches is not a theorem
+(the standard library is an oracle): it is explored by leg G, which also checks, on the standard
+library's own single-position matches, that the `stdAll` model reproduces `regexp.FindAllStringIndex`
+and the `compatAll`/`findAll` models reproduce the adapter.
 -/
+import RegexVerif.Lemmas.Scan
+
 namespace RegexVerif.Props.C06
+open RegexVerif RegexVerif.Scan RegexVerif.Lemmas.Scan
+
+/-- **The adapter's find-all loops deliver what the standard library's loop delivers.** Take a
+    left-to-right pattern without `\G` (RE2 syntax has neither right-to-left nor `\G`), i.e. a
+    matcher whose single-position attempts `attempt` do not depend on the search origin, with sound
+    accelerators. Let the standard library search with `findFrom pos` = "the first position ≥ pos at
+    which an attempt succeeds, with that attempt's match". Then for every limit `k` (negative: all)
+    * `forEachStringMatch` (behind `FindAllString`, `FindAllStringSubmatch(Index)`) and
+    * `findAllRunesIndex` (behind `FindAllStringIndex`, `FindAllIndex`)
+    return exactly the list of `(start, end)` pairs that `allMatches` delivers — same empty matches
+    dropped next to a previous match, same truncation, and `nil` in the same cases. -/
+theorem compat_all_eq_std (attempt : Nat → Option (Nat × Nat)) (n : Nat) (hS : AttemptShape false n attempt)
+    (E : Engine) (hE : E.Sound false n) (hG : ∀ ts, E.attempt ts = attempt) (k : Int) :
+    compatAll E false n k = stdAll (findFromOf attempt n) n k ∧
+    findAll E false n k = stdAll (findFromOf attempt n) n k := by
+  have hstd : stdAll (findFromOf attempt n) n k = findAllSpec false k (iterate E false n) := by
+    unfold stdAll findAllSpec iterate firstMatch
+    have hfirst : scanAt E false n (firstStart false n) (-1) = hitFrom attempt n 0 := by
+      have := scanAt_ltr E n hE attempt hG 0 (-1) (Nat.zero_le n)
+      simpa [firstStart] using this
+    have hcnt : CntRel n (if k < 0 then n + 1 else k.toNat) 0 0 k := by
+      by_cases hk : k < 0
+      · right; simp [hk]
+      · left; simp only [hk, if_false]; omega
+    have := stdLoop_eq attempt n hS E hE hG (if k < 0 then n + 1 else k.toNat) (n + 1) 0 (n + 2) (n + 2) 0 none k
+      (by omega) (by omega) (by omega) (by simp [prevEndOf]) hcnt
+    simp only [prevEndOf] at this
+    rw [this, hfirst]
+    simp
+  rw [hstd]
+  exact ⟨compatAll_eq_spec E false n k, findAll_eq_spec E false n k⟩
+
+-- `a*` on "baa": hypotheses are satisfiable, and the common answer drops the empty match at 3
+example : AttemptShape false 3 exL := exL_shape
+example : (exEngine exL).Sound false 3 := exEngine_sound false 3 exL exL_shape
+example : stdAll (findFromOf exL 3) 3 (-1) = some [(0, 0), (1, 3)] := by decide
+example : compatAll (exEngine exL) false 3 (-1) = some [(0, 0), (1, 3)] := by decide
+example : stdAll (findFromOf exL 3) 3 1 = some [(0, 0)] := by decide
+example : stdAll (findFromOf exL 3) 3 0 = none := by decide
+-- an empty match beyond pos (`b*` on "ab": attempts: 0 ↦ empty, 1 ↦ "b", 2 ↦ empty) and no match at all
+example : stdAll (findFromOf (fun p => if p = 1 then some (1, 1) else if p ≤ 2 then some (p, 0) else none) 2) 2 (-1)
+    = some [(0, 0), (1, 2)] := by decide
+example : stdAll (findFromOf (fun _ => none) 2) 2 3 = none := by decide
+
+/-- **Unset groups are `-1` pairs.** In the index slice the adapter builds for a match
+    (`matchIndexes`, `matchRuneIndexes`), group `j` occupies entries `2j, 2j+1`: both are `-1` exactly
+    when the group has no capture, otherwise they are the byte offsets of the capture's two ends
+    (which are never negative). -/
+theorem unset_group_minus_one (off : Nat → Nat) (groups : List (Option (Nat × Nat))) :
+    (matchIndexes off groups).length = 2 * groups.length ∧
+    ∀ j, j < groups.length →
+      match groups[j]? with
+      | some none => (matchIndexes off groups)[2 * j]? = some (-1) ∧ (matchIndexes off groups)[2 * j + 1]? = some (-1)
+      | some (some (i, l)) =>
+          (matchIndexes off groups)[2 * j]? = some (off i : Int) ∧ (matchIndexes off groups)[2 * j + 1]? = some (off (i + l) : Int)
+      | none => False := by
+  induction groups with
+  | nil => simp [matchIndexes]
+  | cons g gs ih =>
+    obtain ⟨ihl, ihj⟩ := ih
+    constructor
+    · cases g with
+      | none => simp [matchIndexes, ihl]; omega
+      | some p => obtain ⟨i, l⟩ := p; simp [matchIndexes, ihl]; omega
+    · intro j hj
+      cases j with
+      | zero =>
+        cases g with
+        | none => simp [matchIndexes]
+        | some p => obtain ⟨i, l⟩ := p; simp [matchIndexes]
+      | succ j =>
+        have hj' : j < gs.length := by simp at hj; omega
+        have := ihj j hj'
+        have e1 : 2 * (j + 1) = 2 * j + 1 + 1 := by omega
+        have e2 : 2 * (j + 1) + 1 = 2 * j + 1 + 1 + 1 := by omega
+        cases g with
+        | none => simpa [matchIndexes, e1, e2] using this
+        | some p => obtain ⟨i, l⟩ := p; simpa [matchIndexes, e1, e2] using this
+
+example : matchIndexes (fun r => 2 * r) [some (1, 2), none, some (3, 0)] = [2, 6, -1, -1, 6, 6] := by decide
+
 end RegexVerif.Props.C06
